@@ -924,7 +924,7 @@ pub fn run(ctx: &Ctx) -> i32 {
     let n_ss = ss.len();
     agg.merge(run_list(ctx, ss));
     // (ii) structured generation + single-point mutations
-    let cases = ctx.tier.pick(120_000, 6_000_000);
+    let cases = ctx.tier.pick(400_000, 12_000_000);
     if agg.failure.is_none() {
         agg.merge(run_prop(ctx, "c08-input", 16, cases, structured, |inp: &Input| {
             let out = eval(inp);
